@@ -541,7 +541,7 @@ fn judge(c: &FCase, alpha: &[Hostile], o: &FOut) -> Vec<(String, String)> {
     let hs: Vec<&Hostile> = c.frames.iter().map(|i| &alpha[*i]).collect();
     let names: Vec<&str> = hs.iter().map(|h| h.name.as_str()).collect();
     let mut allowed: Vec<u64> = hs.iter().flat_map(|h| h.allowed.iter().copied()).collect();
-    if hs.len() > 1 && hs.iter().all(|h| stream_related(h)) {
+    if hs.iter().filter(|h| stream_related(h)).count() >= 2 {
         // two frames touching the same stream can interact (e.g. a reset after a FIN with a
         // different size): the stream error classes are all legitimate then
         allowed.extend_from_slice(&[FSIZE, SSTATE, FLOW, SLIM]);
@@ -1023,7 +1023,7 @@ pub fn main(args: &Args) -> ! {
     let mut rep = Report::new("C03", args, "fault_enumeration");
     let thorough = args.tier == Tier::Thorough;
     let dl = deadline(if thorough { 1500 } else { 50 });
-    rep.rule = "E3 over hostile input delivered to unmodified real endpoints. (b) A puppet peer (the harness, holding the model-TLS keys) replaces one side once an honest pair reached a chosen state and sends correctly protected packets carrying every single hostile frame of an alphabet (all frame types with boundary field values, malformed encodings, unknown types) in Initial / Handshake / 1-RTT space, every ordered pair of frames in 1-RTT, and 1000-fold repetitions of the resource-consuming frames, against client and server victims in the states handshaking, established, mid-transfer and locally closed and the local configurations default / ack-frequency / zero-length CIDs / datagrams off / tiny limits. Oracle: no panic, bounded steps, bounded live heap, outcome is either 'unaffected' or a transport error whose code is in the set RFC 9000 prescribes or permits for that frame (harness table), the CONNECTION_CLOSE on the wire carries the same code, and a bystander connection on the same endpoint completes its transfer. (c) Every transport-parameter edit of a list (each integer parameter at 0/1/boundaries/2^62-1, absent, duplicated, wrong length, empty; CID echo parameters absent/wrong/unexpected; server-only parameters; unknown ids; truncation at every byte) in both directions: TRANSPORT_PARAMETER_ERROR iff the harness's own RFC validation rejects the encoding, never a panic. (a) byte-level mutations of genuine datagrams are enumerated under C04 with the same no-panic oracle plus arbitrary short byte strings here. Non-trivial = input was delivered to a live victim; distinct = distinct (victim, state, configuration, input) tuples.".into();
+    rep.rule = "E3 over hostile input delivered to unmodified real endpoints. (b) A puppet peer (the harness, holding the model-TLS keys) replaces one side once an honest pair reached a chosen state and sends correctly protected packets carrying every single hostile frame of an alphabet (all frame types with boundary field values, malformed encodings, unknown types) in Initial / Handshake / 1-RTT space, every ordered pair of frames in 1-RTT (thorough: every ordered triple whose first two frames are individually harmless), and 1000-fold repetitions of the resource-consuming frames, against client and server victims in the states handshaking, established, mid-transfer and locally closed and the local configurations default / ack-frequency / zero-length CIDs / datagrams off / tiny limits. Oracle: no panic, bounded steps, bounded live heap, outcome is either 'unaffected' or a transport error whose code is in the set RFC 9000 prescribes or permits for that frame (harness table), the CONNECTION_CLOSE on the wire carries the same code, and a bystander connection on the same endpoint completes its transfer. (c) Every transport-parameter edit of a list (each integer parameter at 0/1/boundaries/2^62-1, absent, duplicated, wrong length, empty; CID echo parameters absent/wrong/unexpected; server-only parameters; unknown ids; truncation at every byte) in both directions: TRANSPORT_PARAMETER_ERROR iff the harness's own RFC validation rejects the encoding, never a panic. (a) byte-level mutations of genuine datagrams are enumerated under C04 with the same no-panic oracle plus arbitrary short byte strings here. Non-trivial = input was delivered to a live victim; distinct = distinct (victim, state, configuration, input) tuples.".into();
 
     // (a) arbitrary short strings and first-byte x length sweep at both roles
     {
@@ -1132,6 +1132,41 @@ pub fn main(args: &Args) -> ! {
         run_frames(base, c, a, false)
     });
     rep.exhaustive &= !capped;
+    // thorough: ordered triples whose first two frames are individually harmless to an established
+    // victim (a frame that ends the connection makes whatever follows it moot)
+    let mut res = res;
+    let mut ntriples = 0usize;
+    if thorough {
+        let mut benign: BTreeMap<(bool, LCfg), Vec<usize>> = BTreeMap::new();
+        for (c, r) in &res {
+            if c.frames.len() == 1 && c.repeat == 1 && !c.early && c.state == VState::Established {
+                if let Ok(o) = r {
+                    let a = &alphas[&(c.vs, c.l.clone())];
+                    if o.applicable && o.lost_codes.is_empty() && !is_raw(&a[c.frames[0]]) {
+                        benign.entry((c.vs, c.l.clone())).or_default().push(c.frames[0]);
+                    }
+                }
+            }
+        }
+        let mut t = vec![];
+        for ((vs, l), b) in &benign {
+            if *l != LCfg::Default && *l != LCfg::Tiny {
+                continue;
+            }
+            let n = alphas[&(*vs, l.clone())].len();
+            for &i in b {
+                for &j in b {
+                    for k in 0..n {
+                        t.push(FCase { vs: *vs, state: VState::Established, l: l.clone(), frames: vec![i, j, k], repeat: 1, early: false });
+                    }
+                }
+            }
+        }
+        ntriples = t.len();
+        let (res3, capped3) = e3(t, dl, |c| run_frames(base, c, &alphas[&(c.vs, c.l.clone())], false));
+        rep.exhaustive &= !capped3;
+        res.extend(res3);
+    }
     let mut killed = 0u64;
     for (c, r) in &res {
         rep.evaluations += 1;
@@ -1156,7 +1191,7 @@ pub fn main(args: &Args) -> ! {
             }
         }
     }
-    rep.part("hostile_frames", json!({"cases": nframes, "executed": res.len(), "alphabet_1rtt": alphas[&(true, LCfg::Default)].len(), "alphabet_early": early.len(), "terminated_with_transport_error": killed, "capped": capped}));
+    rep.part("hostile_frames", json!({"cases": nframes + ntriples, "ordered_triples": ntriples, "executed": res.len(), "alphabet_1rtt": alphas[&(true, LCfg::Default)].len(), "alphabet_early": early.len(), "terminated_with_transport_error": killed, "capped": capped}));
     if killed == 0 {
         machinery("vacuity guard: no hostile frame ever terminated a connection — the puppet's packets are not being accepted");
     }
